@@ -100,7 +100,7 @@ func init() {
 
 func init() {
 	metaTable["C19"] = propMeta{Level: "exploration", Assumptions: commonAssumptions,
-		Rule: "per case a server with a listener of one kind (IPv4, IPv6, 0.0.0.0, [::]; strict or listener-derived family) plus a TCP listener, clients on IPv4 / IPv6 / IPv4-mapped source addresses and a quota-refused user run a random sequence of: Binding; 11 Allocate error paths; plain Allocate + reachability probe of the advertised relayed address + byte-identical retransmission (after 0..31 s) + a different Allocate on the live 5-tuple; identical transaction ids from two clients in one instant; EVEN-PORT/RESERVATION-TOKEN; " +
+		Rule: "per case a server with a listener of one kind (IPv4, IPv6, 0.0.0.0, [::]; strict or listener-derived family) plus a TCP listener, clients on IPv4 / IPv6 / IPv4-mapped source addresses and a quota-refused user run a random sequence of: Binding; 11 Allocate error paths; plain Allocate + reachability probe of the advertised relayed address + byte-identical retransmission (after 0..31 s) + a different Allocate on the live 5-tuple; identical transaction ids from two clients in one instant; EVEN-PORT/RESERVATION-TOKEN; ; every 50th case runs a real Server with the bundled port-range generator on operating-system loopback sockets, the range narrower than the number of raw clients: relayed addresses of live allocations must be distinct and inside the range, and a peer's datagram to each must come out at its owner (absence of that datagram is not a verdict: wall-clock)" +
 			"a monitor on every datagram the server writes checks transaction id, destination, method and answer count; state digests (hook snapshot + AllocationCount + open relay sockets + generator call count) are compared before/after every failed or repeated request; " +
 			"non-trivial = distinct (situation x parameters x response code) fingerprints",
 		NonTrivial: func(fp string) bool { return true },
@@ -167,7 +167,7 @@ func init() {
 		"responses are never placed exactly on a retransmission instant (ties are undetermined); +-1 ms offsets are used instead",
 		"go1.26.8 -race -tags verif build of /repo's working tree",
 	},
-		Rule: "fault enumeration over the 7 transmissions: every one of the 2^7 subsets of lost transmissions (quick: one response-delay policy and RTO per subset drawn from the PRNG; thorough: x 5 delay policies {0, half gap, next timer-1ms, next timer+1ms, after the schedule} x 7 RTOs), plus sampled cases of foreign-id/duplicate/late/echoed responses, 2-8 concurrent transactions with permuted answers, Client.Close after each transmission index, a write error on each transmission index, and a response delivered from inside the client's own WriteTo; " +
+		Rule: "fault enumeration over the 7 transmissions: every one of the 2^7 subsets of lost transmissions (quick: one response-delay policy and RTO per subset drawn from the PRNG; thorough: x 5 delay policies {0, half gap, next timer-1ms, next timer+1ms, after the schedule} x 7 RTOs), plus sampled cases of foreign-id/duplicate/late/echoed responses, 2-8 concurrent transactions with permuted answers, Client.Close after each transmission index, a write error on each transmission index, and a response delivered from inside the client's own WriteTo; ; plus (1 of 8 sampled cases) a response injected while retransmission k is being written under the client's transaction lock, the write then failing (2 of 3) or succeeding: exactly-once completion at the k-th schedule instant, no second result, lock probes, and a follow-up transaction that itself needs a retransmission" +
 			"oracle: arrival offsets must equal the arithmetic schedule (RTO doubling, 1.6 s cap), count and return instant exact, identity tag of the first matching response, empty transaction table (hook) afterwards; non-trivial = distinct (situation, parameters, RTO) fingerprints",
 		NonTrivial: func(fp string) bool { return true },
 		Exhaustive: func(tier string, ev map[string]int) bool { return ev["loss-subset-covered"] >= 128 },
@@ -190,7 +190,7 @@ func init() {
 	metaTable["C14"] = propMeta{Level: "exploration", Assumptions: append(append([]string{}, commonAssumptions...),
 		"'indefinitely' is restated as bounded: every probe is delivered for 3 h (quick) / up to 48 h (thorough) of virtual time; no finite run decides an unbounded duration",
 		"the fault plan drops at most the first two request copies and responses to the first three copies of a transaction, so every transaction keeps a request and a response; data probes are never dropped"),
-		Rule: "real turn.Client <-> real turn.Server over the simulated network for 3 h (48 h for every 25th thorough case) of virtual time; 1-8 peers; traffic pattern in {continuous, bursts, idle 7 min, idle 40 min, idle 3 h, mixed}; server timeouts from 6 configurations compatible with the client's refresh cadence; 2 of 3 runs with loss/duplication/reordering of control transactions; at every probe instant one tagged datagram per direction and peer must arrive with the right source/attribution and AllocationCount must be 1; after Close it must be 0; " +
+		Rule: "real turn.Client <-> real turn.Server over the simulated network for 3 h (48 h for every 25th thorough case) of virtual time; 1-8 peers; traffic pattern in {continuous, bursts, idle 7 min, idle 40 min, idle 3 h, mixed}; server timeouts from 6 configurations compatible with the client's refresh cadence; 2 of 3 runs with loss/duplication/reordering of control transactions; at every probe instant one tagged datagram per direction and peer must arrive with the right source/attribution and AllocationCount must be 1; after Close it must be 0; ; every 7th case is the same promise for an RFC 6062 relay (client over TCP, AllocateTCP): 3 virtual hours of DialTCP / AcceptTCP probes with echo in both directions (the peer is dialled first so that its permission is one the client tracks), AllocationCount == 1 at every probe, 0 after Close" +
 			"non-trivial = distinct (pattern, peers, lossy, timeout configuration) runs",
 		NonTrivial: func(fp string) bool { return true },
 	}
@@ -200,7 +200,7 @@ func init() {
 	metaTable["C16"] = propMeta{Level: "exploration", Assumptions: append(append([]string{}, commonAssumptions...),
 		"TCP between client/peer and server is a simulated reliable byte stream with PRNG-chosen read segmentation",
 		"a client that pipelines application data behind ConnectionBind before its success response is outside RFC 6062 and not generated"),
-		Rule: "1-3 TCP allocations on TCP control connections; random sequences of Connect (listening peer / nobody listening / duplicate), inbound peer connections from permitted and unpermitted IPs, ConnectionBind on fresh data connections (right, wrong id, wrong user, repeated; at <=29 s and >=31 s), byte streams of 0..64 KiB both ways under random segmentation, closes from either side, jumps to 29 s / 31 s after creation; after duplicate Connect, ConnectionBind and close steps the manager locks must be free (hook) and an authenticated Refresh must be answered; " +
+		Rule: "1-3 TCP allocations on TCP control connections; random sequences of Connect (listening peer / nobody listening / duplicate), inbound peer connections from permitted and unpermitted IPs, ConnectionBind on fresh data connections (right, wrong id, wrong user, repeated; at <=29 s and >=31 s), byte streams of 0..64 KiB both ways under random segmentation, closes from either side, jumps to 29 s / 31 s after creation; after duplicate Connect, ConnectionBind and close steps the manager locks must be free (hook) and an authenticated Refresh must be answered; ; the real-client cases draw the relay sockets from the harness' ledger generator or from pion/turn's own Static / PortRange / None generators (over the simulated transport.Net) and compare the address the peer sees with the relayed address" +
 			"oracle: model of peer connections (id, peer, age, bound) + byte-for-byte stream comparison at quiescent points; non-trivial = distinct (operation, situation, response code) fingerprints",
 		NonTrivial: func(fp string) bool { return true },
 	}
@@ -221,7 +221,7 @@ func init() {
 		"generators and handlers read time.Now inside a testing/synctest bubble; the boundary is the Unix second stamped in the username (valid while now <= expiry)",
 		"oracle = own HMAC-SHA1 / MD5 computation; go1.26.8 -race build of /repo's working tree",
 	},
-		Rule: "9 of 10 cases: (generator/handler pair in {long-term, TURN REST}) x secret x user name x realm x duration in {-1h,-1s,0,1s,5s,1min,1d} at a PRNG-chosen clock instant; the handler is called at every second of [expiry-5 s, expiry+5 s] plus +1 h and +400 d, each time checking ok == (now <= expiry), key == MD5(username:realm:HMAC password), user id, MESSAGE-INTEGRITY of a message signed with the issued / a mutated / another-secret / another-username password, 6 single-character username mutations, 9 malformed timestamps and the cross-format pairing; " +
+		Rule: "9 of 10 cases: (generator/handler pair in {long-term, TURN REST}) x secret x user name x realm x duration in {-1h,-1s,0,1s,5s,1min,1d} at a PRNG-chosen clock instant; the handler is called at every second of [expiry-5 s, expiry+5 s] plus +1 h and +400 d, each time checking ok == (now <= expiry), key == MD5(username:realm:HMAC password), user id, MESSAGE-INTEGRITY of a message signed with the issued / a mutated / another-secret / another-username password, 6 single-character username mutations, 9 malformed timestamps and the cross-format pairing; ; every 5th case additionally calls one handler value from 8 goroutines x 1500 calls (distinct valid users) and compares every returned key with the caller's own reference" +
 			"1 of 10: Allocate with a real client through a real server 2 s before and just after expiry; non-trivial = distinct (pair, duration, validity, offset) fingerprints",
 		NonTrivial: func(fp string) bool { return true },
 	}
@@ -229,10 +229,10 @@ func init() {
 
 func init() {
 	metaTable["C20"] = propMeta{Level: "exploration", CrashIsViolation: true, Assumptions: []string{
-		"the generators run over a simulated transport.Net that refuses to bind a UDP or TCP port already in use; SO_REUSEPORT semantics of real TCP listeners are OS behaviour and not modelled (reported as a limit in DESIGN.md)",
+		"9 of 10 cases run the generators over a simulated transport.Net that refuses to bind a UDP or TCP port already in use and knows no socket options; every 10th case uses operating-system loopback sockets (Linux semantics of SO_REUSEADDR/SO_REUSEPORT; that is where known finding K2 - TCP relay listeners share ports - is observed on every run)",
 		"the random source is scripted (always 0, always n-1, n/2, fixed sequences, PRNG); go1.26.8 -race build of /repo's working tree",
 	},
-		Rule: "per case one generator (port-range / static / pass-through) on IPv4 or IPv6 with (MinPort,MaxPort) drawn from boundary values {1,2,1023,1024,32767,32768,49152,65534,65535}, random pairs, single-port and tiny ranges, MaxRetries in {1,2,10,default}; 10-40 steps of allocate (UDP or TCP, with no / a free / an occupied requested port), close, and outsiders occupying ports of the range; every (conn, advertised address, error) is checked: advertised IP and port, range membership, requested port honoured, no port handed out twice, errors only when binding was impossible, Intn argument = range size, clean failure when the whole range is bound; " +
+		Rule: "per case one generator (port-range / static / pass-through) on IPv4 or IPv6 with (MinPort,MaxPort) drawn from boundary values {1,2,1023,1024,32767,32768,49152,65534,65535}, random pairs, single-port and tiny ranges, MaxRetries in {1,2,10,default}; 10-40 steps of allocate (UDP or TCP, with no / a free / an occupied requested port), close, and outsiders occupying ports of the range; every (conn, advertised address, error) is checked: advertised IP and port, range membership, requested port honoured, no port handed out twice, errors only when binding was impossible, Intn argument = range size, clean failure when the whole range is bound; ; every 10th case runs a generator over operating-system loopback sockets (udp4/tcp4/udp6/tcp6): after one allocation is live, asking for its port again (or, single-port range, for any port) must not produce a second socket on it - socket options such as SO_REUSEPORT only mean something there" +
 			"non-trivial = distinct (generator, network, requested?, outcome, single-port?, max=65535?) fingerprints",
 		NonTrivial: func(fp string) bool { return true },
 	}
@@ -247,7 +247,7 @@ func init() {
 			"'all control-flow paths of every function that takes a mutex' is covered dynamically only: lock probes (TryLock hooks) run after every step of every workload; paths no workload reaches are not judged",
 			"go1.26.8 -race -tags verif build of /repo's working tree; every other property's check also runs under -race and reports race counts in its evidence",
 		},
-		Rule: "1 of 7 cases: real-time stress for 0.5 s (thorough 1.5 s) - 6-15 UDP and 2-7 TCP scripted clients issue Allocate/Refresh/Refresh 0/CreatePermission/ChannelBind/Send/ChannelData in tight loops against lifetimes of 20-200 ms and permission/channel timeouts of 5-50 ms, 4 peers flood every relay, AllocationCount is polled, lifecycle callbacks are randomly slow, Server.Close races with traffic in half of the cases; 1 of 7: concurrent Allocate/Refresh bursts on a TCP listener with linearizability check; 5 of 7: forced schedules in virtual time - one of 7 yield points (permission-created / allocation-deleted callback, auth handler, permission handler, relay generator, listener socket write, or an exact tie) is slow across the allocation / permission / channel expiry while the triggering request is in flight and traffic keeps arriving; " +
+		Rule: "1 of 7 cases: real-time stress for 0.5 s (thorough 1.5 s) - 6-15 UDP and 2-7 TCP scripted clients issue Allocate/Refresh/Refresh 0/CreatePermission/ChannelBind/Send/ChannelData in tight loops against lifetimes of 20-200 ms and permission/channel timeouts of 5-50 ms, 4 peers flood every relay, AllocationCount is polled, lifecycle callbacks are randomly slow, Server.Close races with traffic in half of the cases; 1 of 7: concurrent Allocate/Refresh bursts on a TCP listener with linearizability check; 5 of 7: forced schedules in virtual time - one of 7 yield points (permission-created / allocation-deleted callback, auth handler, permission handler, relay generator, listener socket write, or an exact tie) is slow across the allocation / permission / channel expiry while the triggering request is in flight and traffic keeps arriving; ; 1 of 9 cases: an RFC 6062 allocation (or two) with 2-4 permitted peers is torn down by Refresh 0 / control-connection close / expiry / Server.Close while its permission-deleted callbacks are slow and every peer connects to every relayed address during each of those callbacks (relay accept path vs teardown path on the allocation and manager locks); lock probes and a bystander's Refresh afterwards" +
 			"oracles: race detector reports, process survival, hang watchdog, manager lock probes, bystander liveness, cross-delivery tags, goroutines left blocked; non-trivial = distinct (kind, yield point, timer) fingerprints",
 		NonTrivial: func(fp string) bool { return true },
 	}
